@@ -159,6 +159,19 @@ def shadow_history():
              "swapped constants of m1", "swapped constants of h0"])
 
 
+def builtin_shadow_history():
+    """a function and a helper call a builtin by its bare name; then the module defines a plain function of that name"""
+    def fn(name, kind, module, const, refs=()):
+        return {"name": name, "kind": kind, "module": module, "const": const, "default": None, "kwdefault": None, "setconst": None, "tupconst": None,
+                "sset": None, "pair": None, "nested": None, "explicit": None, "hidden": None, "shadow": None, "refs": [list(r) for r in refs]}
+
+    def mk(defined):
+        rnd = fn("round", "p", "a", 7) if defined else {"name": "round", "kind": "u", "module": "a"}
+        return {"pkg": "vpk", "nodes": [rnd, fn("h0", "p", "a", 4, [("round", "live")]), fn("m0", "m", "a", 10, [("round", "live")]), fn("m1", "m", "a", 20, [("h0", "bare")]),
+                                        fn("m2", "m", "b", 30, [])]}
+    return [mk(False), mk(True)], ["initial", "define a plain function named round (a builtin until then), on its own"]
+
+
 def calls_of(spec):
     return [[m, x] for m in vprog.mnames(spec) if vprog.node(spec, m)["explicit"] is None for x in (1, 2)]
 
@@ -175,13 +188,15 @@ def run(tier, seed):
     terms, metas = [], []
     with C.Scratch("c01") as scratch:
         jobs = []
-        for hi in range(n_hist + 3):
+        for hi in range(n_hist + 4):
             if hi == n_hist:
                 eds, descs = concat_history()
             elif hi == n_hist + 1:
                 eds, descs = cross_package_history()
             elif hi == n_hist + 2:
                 eds, descs = shadow_history()
+            elif hi == n_hist + 3:
+                eds, descs = builtin_shadow_history()
             else:
                 eds, descs = make_history(rng, rng.randint(2, 4) if tier == "quick" else rng.randint(2, 6))
             jobs.append((hi, eds, descs, rng.choice(["reload", "exec"]), str(rng.randint(0, 100000))))
@@ -213,9 +228,14 @@ def run(tier, seed):
                         # a pure variable edit is delivered by rebinding the module attribute
                         changed_vars = [n for n in spec["nodes"] if n["kind"] == "v" and n["vkind"] not in ("unsupported", "mixedset", "tuplist") and vprog.node(prev, n["name"])["value"] != n["value"]]
                         others = [n for n in spec["nodes"] if n["kind"] != "v" and n != vprog.node(prev, n["name"])]
+                        newly_defined = [n for n in others if n["kind"] == "p" and vprog.node(prev, n["name"])["kind"] == "u"]
                         if changed_vars and not others:
                             ed["files"] = {}
                             ed["setattrs"] = [[n["module"], n["name"], n["value"]] for n in changed_vars]
+                        elif others and len(newly_defined) == len(others) and not changed_vars:
+                            # only new definitions of names that were undefined: executed on their own, nothing else re-run
+                            ed["files"] = {}
+                            ed["snippets"] = [[n["module"], "\n".join(vprog.import_lines(spec, n["module"]) + vprog.def_lines(spec, n)[0]) + "\n"] for n in newly_defined]
                         else:
                             ed["files"] = {mod: src for mod, src in files.items() if src != vprog.render_module(prev, mod)}
                     editions.append(ed)
